@@ -221,7 +221,14 @@ impl Scenario for C15 {
         let sw = Swarm::draw(rng);
         let mut wl = rng.fork("workload");
         let mut sm = rng.fork("seams");
-        let k = (ctx.run % 11) as usize; // 0..10 records
+        // 0..10 records; now and then hundreds (tables, counters and
+        // pre-sized buffers in a decoder tend to assume far fewer)
+        let many = ctx.run % 97 == 13;
+        let k = if many {
+            *wl.pick(&[255usize, 256, 257, 258, 300, 520])
+        } else {
+            (ctx.run % 11) as usize
+        };
         let ids = [wl.u16(), wl.u16(), wl.u16(), wl.u16()];
         // independently generated good records
         let mut good: Vec<Rec> = Vec::new();
@@ -232,6 +239,10 @@ impl Scenario for C15 {
                     expect: None,
                     terminal: false,
                 });
+            } else if many {
+                let kind = *wl.pick(&[6u16, 9, 10, 14, 39, 2]);
+                let a = gen_avp_of(&mut wl, &Swarm { size: SizeRegime::Tiny, ..sw.clone() }, kind);
+                good.push(Rec { bytes: spec_encode_avp(&a), expect: None, terminal: false });
             } else {
                 good.push(good_record(&mut wl, &sw, true));
             }
@@ -269,13 +280,37 @@ impl Scenario for C15 {
                 Vec::new()
             } else if k <= 5 {
                 (1..(1u32 << npos)).collect()
+            } else if many {
+                Vec::new()
             } else {
                 (0..16).map(|_| (wl.u32() % ((1u32 << npos) - 1)) + 1).collect()
             };
+            if many {
+                // bad records late in a long message: around record 256 and
+                // at the very end
+                for _ in 0..4 {
+                    let mut recs = good.clone();
+                    let mut places: Vec<usize> = vec![k - 1];
+                    for cand in [254usize, 255, 256, 257] {
+                        if cand >= 1 && cand < k && wl.bool() {
+                            places.push(cand);
+                        }
+                    }
+                    places.sort_unstable();
+                    places.dedup();
+                    for p in places {
+                        let kind = *wl.pick(&NONTERMINAL);
+                        recs[p] = bad_record(&mut wl, &Swarm { size: SizeRegime::Tiny, ..sw.clone() }, kind);
+                        ctx.obs.count(&format!("fault:insert-{:?}", kind));
+                    }
+                    ctx.obs.count("probe:bad-record-beyond-position-255");
+                    emit(recs, ctx, &mut sm, "late-in-long-message");
+                }
+            }
             for j in subsets {
                 let mut recs = good.clone();
                 let mut terminal_at = None;
-                for p in 0..npos {
+                for p in 0..npos.min(31) {
                     if j & (1 << p) != 0 {
                         let kind = if wl.chance(1, 8) {
                             *wl.pick(&[Badness::TermLenLt6, Badness::TermLenPast])
